@@ -10,6 +10,8 @@ let () =
         try
           match toks.(0) with
           | "bs" -> Bits_drv.run (Array.sub toks 1 (Array.length toks - 1))
+          | "lex" -> Lex_drv.run (Array.sub toks 1 (Array.length toks - 1))
+          | "xs" -> Xs_drv.run (Array.sub toks 1 (Array.length toks - 1))
           | k -> ("UNKNOWN-KIND " ^ k, "-")
         with e -> ("MODEL-EXN " ^ Printexc.to_string e, "-")
       in
